@@ -7,6 +7,7 @@
 package main
 
 import (
+	"math/big"
 	"bytes"
 	"encoding/json"
 	"errors"
@@ -76,6 +77,9 @@ func gen(r *core.PRNG, tier string) any {
 		p.Mismatch = []string{"skR", "info", "psk", "pskid", "mode", "pkS"}[r.Intn(6)]
 	case 3:
 		p.EncFault = []string{"flip", "trunc", "extend"}[r.Intn(3)]
+		if (p.KEM == 0x20 || p.KEM == 0x21) && r.Chance(1, 3) {
+			p.EncFault = "loworder"
+		}
 		p.EncPos = r.Intn(1 << 14)
 		if p.KEM == 0x20 && p.EncFault == "flip" && r.Chance(1, 3) {
 			p.EncPos = 255 // the bit RFC 7748 masks; HPKE still binds it through kem_context
@@ -431,6 +435,30 @@ func exec(planJSON []byte, run *core.Run) {
 		wire = wire[:p.EncPos%len(wire)]
 	case "extend":
 		wire = append(wire, byte(p.EncPos))
+	case "loworder":
+		// an attacker sends a point of small order, in canonical or non-canonical spelling:
+		// u in {0, 1, p-1, p, p+1} (RFC 9180 7.1.4: the all-zero DH output must be refused)
+		lo := lowOrderU(p.KEM, p.EncPos)
+		if lo == nil {
+			run.Bad("loworder needs an X25519 / X448 KEM")
+			return
+		}
+		wire = lo
+		// the same bytes as the recipient's public key at the sender
+		if bad, uerr := scheme.UnmarshalBinaryPublicKey(append([]byte{}, lo...)); uerr == nil {
+			if s2, serr := suite.NewSender(bad, info); serr == nil {
+				var e2 error
+				pan, pv, st := core.Try(func() { _, _, e2 = s2.Setup(core.NewStream(p.Entropy + 5)) })
+				if pan {
+					run.Violate("hpke.Sender.Setup", core.PanicClass(pv), "low-order recipient key: %s at %s", pv, st)
+					return
+				}
+				if e2 == nil {
+					run.Violate("hpke.Sender.Setup", "accepts-low-order-recipient-key", "kem %#x: a context was set up for the recipient key %x, whose DH output is all zero", p.KEM, lo)
+					return
+				}
+			}
+		}
 	case "":
 	default:
 		run.Bad("encfault")
@@ -483,6 +511,10 @@ func exec(planJSON []byte, run *core.Run) {
 	if faulted && err != nil {
 		run.T("setup-refused")
 		return // setup failed: acceptable outcome for a mismatch
+	}
+	if encFault == "loworder" {
+		run.Violate("hpke.Receiver.Setup", "accepts-low-order-enc", "kem %#x mode %d: a context was set up for the encapsulated key %x, whose DH output is all zero", p.KEM, rMode, wire)
+		return
 	}
 
 	// --- traffic ---
@@ -587,6 +619,39 @@ func exec(planJSON []byte, run *core.Run) {
 		}
 	}
 	_ = kem.ErrSeedSize
+}
+
+// lowOrderU: little-endian u-coordinates of order 1 or 2 and their non-canonical spellings.
+func lowOrderU(kemID int, which int) []byte {
+	var p *big.Int
+	n := 32
+	switch kemID {
+	case 0x20:
+		p = new(big.Int).Sub(new(big.Int).Lsh(big.NewInt(1), 255), big.NewInt(19))
+	case 0x21:
+		p = new(big.Int).Sub(new(big.Int).Sub(new(big.Int).Lsh(big.NewInt(1), 448), new(big.Int).Lsh(big.NewInt(1), 224)), big.NewInt(1))
+		n = 56
+	default:
+		return nil
+	}
+	var u *big.Int
+	switch ((which % 5) + 5) % 5 {
+	case 0:
+		u = big.NewInt(0)
+	case 1:
+		u = big.NewInt(1)
+	case 2:
+		u = new(big.Int).Sub(p, big.NewInt(1))
+	case 3:
+		u = new(big.Int).Set(p)
+	default:
+		u = new(big.Int).Add(p, big.NewInt(1))
+	}
+	be := u.FillBytes(make([]byte, n))
+	for i, j := 0, n-1; i < j; i, j = i+1, j-1 {
+		be[i], be[j] = be[j], be[i]
+	}
+	return be
 }
 
 func main() {
